@@ -72,11 +72,14 @@ def contained_children(o):
 
 
 def public_attr_values(o):
-    """what FQN.find_obj looks at, in its order"""
+    """what the finding is about, stated independently of the implementation's
+    bookkeeping: the attributes of the object's rule in grammar order, then the
+    link to the parent (last, as on the pinned tree) — NOT the order of
+    `__dict__`, which a change of textX could alter"""
     out = []
-    for a in [a for a in o.__dict__ if not a.startswith('__') and not a.startswith('_tx_')
-              and not callable(getattr(o, a))]:
-        v = getattr(o, a)
+    attrs = [a for a in getattr(type(o), '_tx_attrs', {})] + (['parent'] if hasattr(o, 'parent') else [])
+    for a in attrs:
+        v = getattr(o, a, None)
         if isinstance(v, (list, tuple)):
             out += [x for x in v if hasattr(x, 'name')]
         elif hasattr(v, 'name'):
